@@ -22,6 +22,7 @@ func TestMain(m *testing.M) {
 	vh.Rule("rapid, per package kind (30 kinds: all tokens of LookupPackage in narrow and wide variants): a package description is drawn (all optional parts, string lengths 0..max of each prefix with boundary bias, formats and rows over all data types incl. NULLs), encoded by the independent reference codec and decoded by the library from a flat BytesChannel (must consume exactly the bytes, fields equal); where the type has a writer the library re-encodes it and the independent decoder must recover every field (so every length/count field equals what follows it) and the library must read back its own output exactly; packages are also built through the exported client API and written; capability: every single bit exhaustively in both directions plus random subsets; login record: every field length 0..31, decoded by an offset table. Non-trivial: the package has a variable-length or optional part present; distinct by the package description")
 	vh.Assume("the reference codec is my reading of the TDS 5.0 token layouts; data status byte is generated as 0 (NULL short forms driven by the status byte are not exercised); BLOB formats are not generated (recorded finding class C06/blob-format-accounting is excluded by construction)")
 	vh.Rule("also: every client-built package is printed and written a second time (same bytes, same fields)")
+	vh.Rule("also: client-built cursor packages addressed by id are written once more with the (unused) cursor name set as well: same bytes")
 	vh.Rule("also: rows preceded by their format, an ORDERBY / ORDERBY2 package and / or an earlier row")
 	vh.Main(m, "C06")
 }
@@ -220,6 +221,22 @@ func runPkg(c pkgCase) (f *vh.Failure) {
 		if f := checkWritten([]rc.P{target}, again.B, "built, written a second time"); f != nil {
 			return f
 		}
+		// a cursor object that knows its id AND still carries the name it was declared with (two
+		// exported fields, both set): the layout has the name only when the id is 0, so the
+		// bytes are those of the id alone
+		if named, ok := pkggen.Build(target); ok && setRedundantCursorName(named, "cursor_"+kind) {
+			out2 := flatch.New(nil)
+			if err := named.WriteTo(out2); err != nil {
+				return vh.Failf(class(kind, "write"), "WriteTo of a %s with id and name both set failed: %v", kind, err)
+			}
+			if f := checkWritten([]rc.P{target}, out2.B, "built with id and name both set"); f != nil {
+				return f
+			}
+			if !bytes.Equal(out2.B, out.B) {
+				return vh.Failf(class(kind, "written-layout"), "%s with cursor id %v: setting the (unused) name changes the bytes: % x vs % x", kind, normP(target), head(out2.B), head(out.B))
+			}
+			vh.Label("built-id-and-name:" + kind)
+		}
 		vh.Label("built:" + kind)
 	}
 	vh.Label("kind:" + kind)
@@ -227,6 +244,43 @@ func runPkg(c pkgCase) (f *vh.Failure) {
 		vh.NonTrivial(normP(target))
 	}
 	return nil
+}
+
+// setRedundantCursorName gives a cursor package addressed by id a name as well.
+func setRedundantCursorName(p tds.Package, name string) bool {
+	switch g := p.(type) {
+	case *tds.CurOpenPackage:
+		if g.CursorID != 0 {
+			g.Name = name
+			return true
+		}
+	case *tds.CurClosePackage:
+		if g.CursorID != 0 {
+			g.Name = name
+			return true
+		}
+	case *tds.CurFetchPackage:
+		if g.CursorID != 0 {
+			g.Name = name
+			return true
+		}
+	case *tds.CurDeletePackage:
+		if g.CursorID != 0 {
+			g.Name = name
+			return true
+		}
+	case *tds.CurUpdatePackage:
+		if g.CursorID != 0 {
+			g.Name = name
+			return true
+		}
+	case *tds.CurInfoPackage:
+		if g.CursorID != 0 {
+			g.Name = name
+			return true
+		}
+	}
+	return false
 }
 
 // checkWritten: what the library wrote must start with the token, must be decodable by
